@@ -285,7 +285,7 @@ class PInterface:
     user_id: int | None = None
     password: str | None = None
     authentication: str | None = None
-    groups: list[tuple[int, list[int]]] = field(default_factory=list)  # (ga raw, [sender ia raw])
+    groups: list[tuple[int, list[int] | None]] = field(default_factory=list)  # (ga raw, [sender ia raw] | None = no Senders attribute)
 
 
 @dataclass
@@ -321,8 +321,12 @@ class Project:
                 self.backbone is not None, sum(len(i.groups) for i in self.interfaces))
 
 
-def build_tree(project: Project, rng, shuffle_attrs: bool = False) -> Node:  # noqa: ANN001
-    """Encrypt and lay out a project as an (unsigned -> signed) element tree."""
+def build_tree(project: Project, rng, shuffle_attrs: bool = False, order: str = "BIGD") -> Node:  # noqa: ANN001
+    """Encrypt and lay out a project as an (unsigned -> signed) element tree.
+
+    order: top-level layout, B = Backbone, I = the Interface elements, G = GroupAddresses, D = Devices
+    (ETS writes BIGD; the signature and the format do not depend on it).
+    """
     pwhash = password_hash(project.password)
     iv = created_iv(project.created)
 
@@ -331,6 +335,7 @@ def build_tree(project: Project, rng, shuffle_attrs: bool = False) -> Node:  # n
 
     root = Node("Keyring", [["Project", project.name], ["CreatedBy", project.created_by],
                             ["Created", project.created], ["Signature", ""], ["xmlns", XMLNS]])
+    sections: dict[str, list[Node]] = {"B": [], "I": [], "G": [], "D": []}
     if (bb := project.backbone) is not None:
         node = Node("Backbone")
         if bb.multicast_address is not None:
@@ -339,7 +344,7 @@ def build_tree(project: Project, rng, shuffle_attrs: bool = False) -> Node:  # n
             node.set("Latency", str(bb.latency))
         if bb.key is not None:
             node.set("Key", encrypt_key(bb.key, pwhash, iv))
-        root.children.append(node)
+        sections["B"].append(node)
     for itf in project.interfaces:
         node = Node("Interface", [["IndividualAddress", ia_str(itf.ia)], ["Type", itf.type]])
         if itf.host is not None:
@@ -351,13 +356,19 @@ def build_tree(project: Project, rng, shuffle_attrs: bool = False) -> Node:  # n
         if itf.authentication is not None:
             node.set("Authentication", secret(itf.authentication))
         for ga, senders in itf.groups:
-            node.children.append(Node("Group", [["Address", str(ga)], ["Senders", " ".join(ia_str(s) for s in senders)]]))
-        root.children.append(node)
+            gnode = Node("Group", [["Address", str(ga)]])
+            if senders is not None:  # None: no Senders attribute at all
+                gnode.set("Senders", " ".join(ia_str(s) for s in senders))
+            node.children.append(gnode)
+        sections["I"].append(node)
     if project.group_keys is not None:
         node = Node("GroupAddresses")
         for ga, key in project.group_keys:
-            node.children.append(Node("Group", [["Address", str(ga)], ["Key", encrypt_key(key, pwhash, iv)]]))
-        root.children.append(node)
+            gnode = Node("Group", [["Address", str(ga)]])
+            if key is not None:
+                gnode.set("Key", encrypt_key(key, pwhash, iv))
+            node.children.append(gnode)
+        sections["G"].append(node)
     if project.devices is not None:
         node = Node("Devices")
         for dev in project.devices:
@@ -373,7 +384,9 @@ def build_tree(project: Project, rng, shuffle_attrs: bool = False) -> Node:  # n
             if dev.sequence_number is not None:
                 dnode.set("SequenceNumber", str(dev.sequence_number))
             node.children.append(dnode)
-        root.children.append(node)
+        sections["D"].append(node)
+    for letter in order:
+        root.children += sections[letter]
     if shuffle_attrs:
         for _, n in root.walk():
             rng.shuffle(n.attrs)
@@ -530,3 +543,114 @@ def random_style(rng) -> Style:  # noqa: ANN001
         declaration=rng.random() < 0.85,
         charref_nonascii=rng.random() < 0.15,
     )
+
+
+# --------------------------------------------------------------------------
+# deterministic structural corner cases (independent of every seed)
+# --------------------------------------------------------------------------
+CORNER_PASSWORD = "corner pässword"
+
+
+def corner_projects() -> list[tuple[str, Project, str]]:
+    """(label, project, top-level order). Same list on every run and tier."""
+    rng = __import__("random").Random("C31/corner-keyrings")
+    out: list[tuple[str, Project, str]] = []
+
+    def key() -> bytes:
+        return rng.randbytes(16)
+
+    def base() -> Project:
+        return Project("Corner", "ETS 5.7.7 (Build 1428)", "2024-02-29T12:00:00", CORNER_PASSWORD)
+
+    def bb() -> PBackbone:
+        return PBackbone("224.0.23.12", 1000, key())
+
+    def itf(n: int, **kw) -> PInterface:  # noqa: ANN003
+        d = {"host": 0x1100, "user_id": 2 + n, "password": f"tunnel pw {n}", "authentication": f"auth {n}",
+             "groups": [(1 + n, [0x1105, 0x1106])]}
+        d.update(kw)
+        return PInterface(0x1101 + n, d.pop("type", "Tunneling"), **d)
+
+    def dev(n: int, **kw) -> PDevice:  # noqa: ANN003
+        d = {"tool_key": key(), "management_password": f"mgmt {n}", "authentication": f"dev auth {n}", "sequence_number": 1000 + n}
+        d.update(kw)
+        return PDevice(0x1100 + 0x100 * n, **d)
+
+    # every subset of {backbone, interfaces, groups, devices}, with 1 and 2 elements, and with empty containers
+    for mask in range(16):
+        for count in (1, 2):
+            p = base()
+            if mask & 1:
+                p.backbone = bb()
+            if mask & 2:
+                p.interfaces = [itf(n) for n in range(count)]
+            if mask & 4:
+                p.group_keys = [(1 + n, key()) for n in range(count)]
+            if mask & 8:
+                p.devices = [dev(n) for n in range(count)]
+            if count == 1 or mask & 14:
+                out.append((f"subset-{mask:04b}-x{count}", p, "BIGD"))
+        if mask & 12:  # <GroupAddresses/> and <Devices/> present but empty
+            p = base()
+            p.backbone = bb() if mask & 1 else None
+            p.interfaces = [itf(0, groups=[])] if mask & 2 else []
+            p.group_keys = [] if mask & 4 else None
+            p.devices = [] if mask & 8 else None
+            out.append((f"subset-{mask:04b}-empty-containers", p, "BIGD"))
+    # every order of the four top-level sections
+    from itertools import permutations
+    for perm in permutations("BIGD"):
+        order = "".join(perm)
+        if order != "BIGD":
+            p = base()
+            p.backbone, p.interfaces, p.group_keys, p.devices = bb(), [itf(0), itf(1, groups=[])], [(1, key()), (2, key())], [dev(0), dev(1)]
+            out.append((f"order-{order}", p, order))
+    # backbone: every subset of its three attributes
+    for mask in range(8):
+        for with_rest in (False, True):
+            p = base()
+            p.backbone = PBackbone("224.0.23.12" if mask & 1 else None, (0 if mask == 2 else 2000) if mask & 2 else None, key() if mask & 4 else None)
+            if with_rest:
+                p.interfaces, p.group_keys, p.devices = [itf(0)], [(1, key())], [dev(0)]
+            out.append((f"backbone-attrs-{mask:03b}-{'full' if with_rest else 'alone'}", p, "BIGD"))
+    # interfaces: every subset of {password, authentication, user id, group list} alone, after and before a complete one
+    for mask in range(16):
+        kw = {"password": "pw ä" if mask & 1 else None, "authentication": "au ö" if mask & 2 else None,
+              "user_id": 9 if mask & 4 else None, "groups": [(7, [0x1105]), (8, [])] if mask & 8 else []}
+        for where in ("alone", "after-full", "before-full"):
+            p = base()
+            partial = itf(3, **kw)
+            p.interfaces = {"alone": [partial], "after-full": [itf(0), partial], "before-full": [partial, itf(0)]}[where]
+            p.group_keys = [(1, key()), (7, key()), (8, key())]
+            out.append((f"interface-attrs-{mask:04b}-{where}", p, "BIGD"))
+    for typ in ("USB", "Backbone", "Tunneling"):
+        p = base()
+        p.interfaces = [itf(0, type=typ, host=None, user_id=None, password=None, authentication=None, groups=[(5, [0x1105])])]
+        p.group_keys = [(5, key())]
+        out.append((f"interface-{typ}-without-host", p, "BIGD"))
+    # groups of an interface: no senders, no Senders attribute, 1, 2 senders; group key entries without Key
+    p = base()
+    p.interfaces = [itf(0, groups=[(1, []), (2, None), (3, [0x1105]), (4, [0x1105, 0x1106])]), itf(1, groups=[(2, None)]), itf(2, groups=[(1, [])])]
+    p.group_keys = [(1, key()), (2, key()), (3, None), (4, key()), (5, None)]
+    out.append(("groups-senders-and-keys-optional", p, "BIGD"))
+    p = base()
+    p.group_keys = [(9, None)]
+    out.append(("groups-single-without-key", p, "BIGD"))
+    # devices: every subset of the optional attributes, alone, after and before a complete one
+    for mask in range(16):
+        kw = {"tool_key": key() if mask & 1 else None, "management_password": "mg ü" if mask & 2 else None,
+              "authentication": "da ß" if mask & 4 else None, "sequence_number": (0 if mask == 8 else 2**47 + 5) if mask & 8 else None}
+        for where in ("alone", "after-full", "before-full"):
+            p = base()
+            partial = dev(3, **kw)
+            p.devices = {"alone": [partial], "after-full": [dev(0), partial], "before-full": [partial, dev(0)]}[where]
+            if mask & 1 == 0 and where == "alone":
+                p.interfaces = [itf(0, host=partial.ia)]
+            out.append((f"device-attrs-{mask:04b}-{where}", p, "BIGD"))
+    # senders that are also devices / devices only / interface senders only (sequence table sources)
+    p = base()
+    p.interfaces = [itf(0, groups=[(1, [0x1100, 0x1105])])]
+    p.group_keys = [(1, key())]
+    p.devices = [dev(0)]
+    out.append(("sender-is-also-device", p, "BIGD"))
+    return out
